@@ -285,12 +285,24 @@ def _complement_of_contig(fa, p, rd, e, val, cur, lid):
                 others = [f for f, dd in path_facts(p, d.seq, after=rd.seq)] + fs
                 if _previous_entry(fa, p, cur, lid, others) is not None:
                     return True
-    # a `match prev { Some(p) if raw == 0 => .., _ => .. }`: falling to the catch-all arm is the complement by construction
+    # a two-arm `match` whose first arm is the contiguous case (pattern and/or guard) and whose second arm is a catch-all: falling through to
+    # the catch-all is the complement by construction, provided the first arm really establishes the contiguous condition
     for d in p.decisions(e.seq):
         if d.seq > rd.seq and d.d["how"] == "match" and d.d.get("pat") is not None and d.d["pat"]["k"] in ("Wild", "Bind"):
             arms = (d.node or {}).get("arms") or []
-            if len(arms) == 2 and arms[0].get("guard") is not None:
-                return True
+            if len(arms) == 2:
+                if arms[0].get("guard") is not None:
+                    return True
+                class _D:
+                    pass
+                o = _D()
+                o.d = dict(d.d)
+                o.d["outcome"] = 0
+                o.d["pat"] = arms[0]["pat"]
+                o.node = d.node
+                fs = decision_facts(o)
+                if ("eq", val, 0) in fs and _previous_entry(fa, p, cur, lid, fs) is not None:
+                    return True
     return False
 
 
@@ -315,6 +327,8 @@ def r_cols_writer(ctx):
     for f in encs:
         fn = f["path"]
         fa = ctx.fa(f)
+        global _FA
+        _FA = fa
         paths = full_ok_paths(fa)
         if not paths:
             obs.append(Ob("R-COLS", fn, "encode: paths", False, "no success path", rel(f["loc"])))
@@ -354,12 +368,17 @@ def r_cols_writer(ctx):
                 atoms = dict(a[1])
                 ok_t = atoms.pop(("f", ent, "tile_id"), 0) == 1 and a[0] == 0
                 last = None
+                shifted = False
                 if len(atoms) == 1:
                     (k, c), = atoms.items()
                     if c == -1 and k[0] == "v" and k[1].startswith("loop%s:" % idw.loops[-1]):
                         last = k
-                srcs = set(unmut(s) for s in fa.havoc_src.get(last, ())) if last else set()
-                ok_src = last is not None and srcs == {C(0), ("f", ent, "tile_id")}
+                    if c == -1 and k[0] == "shift":
+                        # zipped with `once(0).chain(ids)`: 0 for the first entry, afterwards the previous entry's id
+                        shifted = unmut(k[1]) == C(0) and unmut(k[2]) == ("f", ent, "tile_id")
+                        last = k
+                srcs = set(unmut(s) for s in fa.havoc_src.get(last, ())) if last and not shifted else set()
+                ok_src = shifted or (last is not None and srcs == {C(0), ("f", ent, "tile_id")})
                 obs.append(Ob("R-DELTA", fn, "encode: emits tile_id − previous tile_id (first: − 0)", ok_t and ok_src,
                               "emitted %s; `previous` sources = %s" % (aff_str(a), [tstr(s)[:50] for s in srcs]), idw.loc()))
             for (w, field, (ent, _)) in ((runw, "run_length", elems[1]), (lenw, "length", elems[2])):
@@ -394,7 +413,13 @@ def r_cols_writer(ctx):
                 else:
                     srcs = set(unmut(s) for s in fa.havoc_src.get(nb, ())) if nb is not None and nb[0] == "v" else set()
                     want_nb = (0, {("f", ent, "offset"): 1, ("f", ent, "length"): 1})
-                    ok_nb = bool(srcs) and C(0) in srcs and all(s == C(0) or aff_eq(affine(s), want_nb) for s in srcs) and len(srcs) == 2
+                    def _is_start(s):
+                        return s == C(0) or is_call_to(s, lambda x: x == "core::option::Option::None")
+                    def _is_end(s):
+                        while is_call_to(s, lambda x: x == "core::option::Option::Some") and s[2]:
+                            s = s[2][0]
+                        return aff_eq(affine(s), want_nb)
+                    ok_nb = bool(srcs) and any(_is_start(s) for s in srcs) and all(_is_start(s) or _is_end(s) for s in srcs) and len(srcs) == 2
                     obs.append(Ob("R-OFFRULE", fn, "encode: next_byte = previous offset + previous length (first: 0)", ok_nb, "next_byte sources = %s" % [tstr(s)[:60] for s in srcs], dec.loc()))
                     a = affine(val)
                     if contig:
@@ -413,13 +438,26 @@ def _entry_of_iter(it, lid, ents, me):
         return None, None
     base = it
     enum = False
+    if is_call_to(base, lambda s: s.endswith("::zip")) and len(base[2]) == 2:
+        # `entries.iter().zip(other)`: the first component walks the entries in order
+        ent0, _ = _entry_of_iter(base[2][0], lid, ents, me)
+        return ent0, None
     if is_call_to(base, lambda s: s.endswith("::enumerate")):
         enum = True
         base = base[2][0]
-    while is_call_to(base, lambda s: s.endswith("::into_iter") or s.endswith("::iter")):
+    mapped = False
+    while is_call_to(base, lambda s: s.endswith(("::into_iter", "::iter", "::map"))):
+        if base[1].endswith("::map"):
+            mapped = True
         base = base[2][0]
     if base not in (ents, me):
         return None, None
+    if mapped:
+        # `entries.iter().map(|e| e.field)`: the loop variable is already the field of the element of the underlying sequence
+        inner = it
+        while is_call_to(inner, lambda s: s.endswith("::map")):
+            inner = inner[2][0]
+        return ("elem", inner, lid), None
     el = ("elem", it, lid)
     if enum:
         return ("proj", el, 1), ("proj", el, 0)
@@ -435,13 +473,23 @@ def r_dir_twins(ctx):
     return obs
 
 
+_FA = None
+
+
 def _offrule_facts(d, idx, ent):
     """if decision d (with its outcome) establishes `index != 0` and `entry.offset == X`, return X"""
     fs = decision_facts(d)
     has_i = idx is not None and (("ne", idx, 0) in fs)
     eq = [f for f in fs if f[0] == "rel" and f[1] == "==" and ("f", ent, "offset") in (f[2], f[3])]
-    if has_i and len(eq) == 1:
-        return eq[0][3] if eq[0][2] == ("f", ent, "offset") else eq[0][2]
+    if len(eq) == 1:
+        nb = eq[0][3] if eq[0][2] == ("f", ent, "offset") else eq[0][2]
+        if has_i:
+            return nb
+        # `preceding_end == Some(entry.offset)` with an Option that is None exactly for the first entry: equality already implies "not the first entry"
+        if _FA is not None and nb[0] == "v":
+            srcs = [unmut(s) for s in _FA.havoc_src.get(nb, ())]
+            if srcs and any(is_call_to(s, lambda x: x == "core::option::Option::None") for s in srcs) and not any(s[0] == "c" for s in srcs):
+                return nb
     return None
 
 
